@@ -5,8 +5,10 @@ pub mod c08;
 pub mod c09;
 pub mod c10;
 pub mod c11;
+pub mod c14;
 pub mod c15;
 pub mod c16;
+pub mod c17;
 
 pub const ALL: [&str; 19] = [
     "C01", "C02", "C03", "C04", "C05", "C06", "C07", "C08", "C09", "C10", "C11", "C12", "C13", "C14",
@@ -20,8 +22,10 @@ pub fn get(id: &str, tier: Tier) -> Option<CheckDef> {
         "C09" => c09::def(tier),
         "C10" => c10::def(tier),
         "C11" => c11::def(tier),
+        "C14" => c14::def(tier),
         "C15" => c15::def(tier),
         "C16" => c16::def(tier),
+        "C17" => c17::def(tier),
         _ => return None,
     })
 }
